@@ -141,6 +141,51 @@ fn check_tuple(c: &TupleCase) -> Verdict {
     Verdict::pass((c.fg, c.bg, c.blink, c.bold) != (0, 0, false, false), class)
 }
 
+/// Attribute flags a DOS attribute byte has no room for (and the font page): they must not change the byte.
+/// One case = one tuple x one extra-flag set; the byte is compared with the byte of the same tuple without the extras.
+#[derive(Clone, Debug, Hash, Serialize, Deserialize)]
+struct FlagCase {
+    t: TupleCase,
+    /// bits of TextAttribute::attr other than BOLD, BLINK and the INVISIBLE / SHORT_DATA markers
+    extra: u16,
+    font_page: u8,
+}
+
+const EXTRA_BITS: [u16; 8] = [0x0002, 0x0004, 0x0010, 0x0020, 0x0040, 0x0080, 0x0100, 0x0200];
+/// extra-flag sets: each single flag, all of them, none (with a font page)
+const EXTRA_SETS: u64 = 10;
+
+fn flag_case(i: u64) -> FlagCase {
+    let t = tuple_case(i % 3072);
+    let k = i / 3072;
+    let (extra, font_page) = match k {
+        0..=7 => (EXTRA_BITS[k as usize], 0),
+        8 => (EXTRA_BITS.iter().fold(0, |a, b| a | b), 0),
+        _ => (0, 3),
+    };
+    FlagCase { t, extra, font_page }
+}
+
+fn check_flags(c: &FlagCase) -> Verdict {
+    let t = &c.t;
+    let m = t.mode.engine();
+    let mut plain = TextAttribute::new(t.fg as u32, t.bg as u32);
+    plain.set_is_blinking(t.blink);
+    plain.set_is_bold(t.bold);
+    let mut decorated = plain;
+    decorated.attr |= c.extra;
+    decorated.set_font_page(c.font_page as usize);
+    let (a, b) = (plain.as_u8(m), decorated.as_u8(m));
+    let what = if c.extra == 0 { "font_page".to_string() } else if c.extra.count_ones() > 1 { "all_flags".to_string() } else { format!("flag_{:#06x}", c.extra) };
+    if a != b {
+        return Verdict::fail(
+            format!("attr_byte_depends_on|{what}|mode={}", t.mode.tag()),
+            format!("fg {} bg {} blink {} bold {}: as_u8({:?}) = {a:#04x}, with attr |= {:#06x} and font page {} it is {b:#04x}", t.fg, t.bg, t.blink, t.bold, t.mode, c.extra, c.font_page),
+        );
+    }
+    Verdict::pass((t.fg, t.bg, t.blink, t.bold) != (0, 0, false, false), format!("{}|{what}", t.mode.tag()))
+}
+
 // ------------------------------------------------------------------------------------------------------------
 // converters
 // ------------------------------------------------------------------------------------------------------------
@@ -209,6 +254,64 @@ fn check_code(c: &CodeCase) -> Verdict {
         );
     }
     Verdict::pass(true, format!("{t}|{}", if uni as u32 == code { "same_scalar" } else { "table_mapped" }))
+}
+
+/// The cell's attribute is no part of a code: every claimed code and every typed character converts the same way under all
+/// 16 x 16 colour pairs x {plain, bold, blink, every flag set}. One case = one code (or typed character) x one converter; the
+/// 1024 attributes are walked inside.
+#[derive(Clone, Debug, Hash, Serialize, Deserialize)]
+struct ColouredCase {
+    /// 0..=255: a code; 256..: index into typed_chars() + 256
+    what: u16,
+    conv: Conv,
+}
+
+fn coloured_case(i: u64) -> ColouredCase {
+    ColouredCase { what: (i % (256 + 63)) as u16, conv: CONVS[(i / (256 + 63)) as usize] }
+}
+
+fn check_coloured(c: &ColouredCase) -> Verdict {
+    let conv = c.conv.engine();
+    let t = c.conv.tag();
+    let code = if c.what < 256 {
+        c.what as u32
+    } else {
+        let ch = typed_chars()[(c.what - 256) as usize];
+        conv.convert_from_unicode(ch, 0) as u32
+    };
+    let claimed = c.what >= 256 || code < c.conv.claimed_codes();
+    if code > 255 {
+        return Verdict::pass(false, format!("{t}|no_code"));
+    }
+    let base = to_uni(&*conv, code);
+    for fg in 0..16u32 {
+        for bg in 0..16u32 {
+            for flags in 0..4u8 {
+                let mut a = TextAttribute::new(fg, bg);
+                match flags {
+                    1 => a.set_is_bold(true),
+                    2 => a.set_is_blinking(true),
+                    3 => a.attr |= 0x03FF,
+                    _ => {}
+                }
+                let uni = conv.convert_to_unicode(AttributedChar::new(char::from_u32(code).unwrap(), a));
+                if uni != base && claimed {
+                    let inverse = if fg < bg { "dark_on_light" } else { "other" };
+                    return Verdict::fail(
+                        format!("code_depends_on_attribute|conv={t}|{inverse}"),
+                        format!("code {code:#04x} is U+{:04X} with the default attribute and U+{:04X} with fg {fg} bg {bg} flag set {flags}", base as u32, uni as u32),
+                    );
+                }
+                if claimed {
+                    let back = conv.convert_from_unicode(uni, 0) as u32;
+                    if back != code {
+                        return Verdict::fail(format!("code_roundtrip_under_attribute|conv={t}"), format!("code {code:#04x} with fg {fg} bg {bg} -> U+{:04X} -> code {back:#04x}", uni as u32));
+                    }
+                }
+            }
+        }
+    }
+    Verdict::pass(claimed, format!("{t}|{}", if claimed { "claimed" } else { "unclaimed" }))
 }
 
 #[derive(Clone, Debug, Hash, Serialize, Deserialize)]
@@ -305,9 +408,11 @@ fn main() {
          Unlimited: not in the image of from_u8(., Unlimited)) is discarded; bold is the foreground intensity bit (expected foreground fg|8); non-trivial: \
          expressible and not the all-zero tuple. codes: 256 codes x {CP437, PETSCII, ATASCII, Viewdata}; the round trip is asserted for CP437 (256) and \
          ATASCII (0..128), the other 640 codes are only exercised (class '<conv>|unclaimed|returns/collapses', never non-trivial). typed: a-z, A-Z, 0-9, space x 4 converters; \
-         every case non-trivial.",
+         every case non-trivial. attr_flags: every tuple x {each of the eight attribute flags a byte has no room for, all of them, font page 3}: the byte equals the byte of the plain tuple. \
+         codes_under_attributes: every code and every typed character x 4 converters, each walked through 16 x 16 colour pairs x {plain, bold, blink, all flags}: same Unicode character as with the default attribute, and (claimed codes) back to the same code.",
     );
     eng.assume("letters, digits and space have their ASCII code in CP437, ATASCII and Viewdata; in PETSCII (shifted character set) the two letter cases are exchanged, digits and space as ASCII");
+    eng.assume("flags outside the attribute byte (faint, italic, underline, ... , font page) and a cell's colours are no part of the statement's domain description, so they must not influence either codec");
     eng.assume("a bold attribute with foreground f < 8 stands for foreground f + 8 in an attribute byte (no separate bold bit)");
 
     // complete failure lists (the domains are tiny)
@@ -327,7 +432,9 @@ fn main() {
 
     eng.enumerated(PartCfg::new("attr_bytes", 0, 0).exhaustive(true), 768, byte_case, check_byte);
     eng.enumerated(PartCfg::new("attr_tuples", 0, 0).exhaustive(true), 3072, tuple_case, check_tuple);
+    eng.enumerated(PartCfg::new("attr_flags", 0, 0).exhaustive(true), 3072 * EXTRA_SETS, flag_case, check_flags);
     eng.enumerated(PartCfg::new("codes", 0, 0).exhaustive(true), 1024, code_case, check_code);
+    eng.enumerated(PartCfg::new("codes_under_attributes", 0, 0).exhaustive(true), (256 + 63) * 4, coloured_case, check_coloured);
     eng.enumerated(
         PartCfg::new("typed", 0, 0).exhaustive(true),
         n_typed,
